@@ -21,7 +21,10 @@ import (
 
 	"github.com/deckhouse/deckhouse/pkg/log"
 
+	"github.com/flant/shell-operator/pkg/app"
 	"github.com/flant/shell-operator/pkg/executor"
+	"github.com/flant/shell-operator/pkg/webhook/admission"
+	"github.com/flant/shell-operator/pkg/webhook/conversion"
 	"github.com/flant/shell-operator/pkg/hook/task_metadata"
 	objectpatch "github.com/flant/shell-operator/pkg/kube/object_patch"
 	metricstorage "github.com/flant/shell-operator/pkg/metric_storage"
@@ -335,6 +338,26 @@ func zzNoopSchedStart(_ schedulemanager.ScheduleManager)        {}
 func (fx *fixture) withCluster() {
 	fx.op.KubeClient = vfx.NewMiniCluster()
 	fx.op.ObjectPatcher = objectpatch.NewObjectPatcher(fx.op.KubeClient, log.NewNop())
+}
+
+func zzNoopAdmStart(_ *admission.WebhookManager) error   { return nil }
+func zzNoopConvStart(_ *conversion.WebhookManager) error { return nil }
+
+// withWebhooks runs the operator's own admission / conversion initialisation; the TLS servers
+// and the registration of webhook configurations in the cluster (Start) are behind no-op seams.
+func (fx *fixture) withWebhooks() error {
+	ca := filepath.Join(filepath.Dir(fx.dir), "ca.crt")
+	_ = os.WriteFile(ca, []byte("dummy CA bundle\n"), 0o644)
+	as := *app.ValidatingWebhookSettings
+	as.CAPath = ca
+	fx.op.AdmissionWebhookManager.Settings = &as
+	cs := *app.ConversionWebhookSettings
+	cs.CAPath = ca
+	fx.op.ConversionWebhookManager.Settings = &cs
+	if err := fx.op.initValidatingWebhookManager(); err != nil {
+		return err
+	}
+	return fx.op.initConversionWebhookManager()
 }
 
 // start runs the operator's own Start().
